@@ -22,7 +22,7 @@ CHECKS = {
    "7.3"),
  "C12": (True, "velocity+nodevel", "model_checking",
    "explicit-state search over the real VelocityControl (closes per config) and bounded exhaustive histories of approvals, clock advances and restarts on a real node, against a sliding-window oracle",
-   "Component: for limits {0, 100, 2^64-2}, 1-4 buckets and the three interval types, every sequence of insert(now+dt, amount) over bucket-edge time deltas and limit-edge amounts up to the depth bound / state closure, with the sum of approved amounts in any (N-1)-bucket window compared with the limit in u128. Node: every history of <= 5 (7) letters (keysend / invoice / on-chain fee at limit edges, clock +1/+11/+12 buckets, restart) on a real node with hourly limits; the same oracle on the log of approvals, across restarts.",
+   "Component: for limits {0, 100, 2^64-2}, 1-4 buckets and the three interval types, every sequence of insert(now+dt, amount) over bucket-edge time deltas and limit-edge amounts up to the depth bound / state closure, with the sum of approved amounts in any (N-1)-bucket window compared with the limit in u128. Node: every history of <= 5 (7) letters (keysend / invoice / on-chain fee at limit edges, clock +1/+11/+12 buckets, restart, the most recent request presented again unchanged) on a real node with hourly limits; the same oracle on the log of approvals, across restarts.",
    "ManualClock; non-decreasing time (as in the statement).",
    "5.3"),
  "C15": (True, "nodemc", "model_checking",
@@ -52,7 +52,7 @@ CHECKS = {
    "3.2"),
  "C03": (True, "chanfsm+secretstore", "model_checking",
    "explicit-state BFS over SignRemoteCommitmentTx[2]/ValidateRevocation letters with tree and rogue points/secrets + exhaustive in-order sequences into the compact secret store vs a naive BOLT-3 reference",
-   "All interleavings of sign-counterparty-commitment (numbers nc-1..nc+1, tree or rogue point, three contents, phase 1 and 2) and validate-revocation (numbers nr-1..nr+1, matching / tree-although-rogue / previous / future / unrelated secret) with restarts, until closure; ghost: signed[n] -> (point, content), revoked set; plus every in-order secret sequence (with retries of old indices, three secret kinds) of length <= 6 (8) into CounterpartyCommitmentSecrets against a keep-everything reference.",
+   "All interleavings of sign-counterparty-commitment (numbers nc-1..nc+1; point from the tree, outside the tree, or outside the tree and the same for every number; three contents, phase 1 and 2) and validate-revocation (numbers nr-1..nr+1, matching / tree-although-rogue / previous / future / unrelated secret) with restarts, until closure; ghost: signed[n] -> (point, content), revoked set; plus every in-order secret sequence (with retries of old indices, three secret kinds) of length <= 6 (8) into CounterpartyCommitmentSecrets against a keep-everything reference.",
    "Counter cap k (3/4). The secret store is fed in order only (future indices are outside its contract and unreachable through the channel layer).",
    "3.3"),
  "C10": (True, "history-engines", "model_checking",
@@ -82,7 +82,7 @@ CHECKS = {
    "4.2"),
  "C07": (True, "c07", "model_checking",
    "deviation-bounded exhaustive enumeration (d=1 quick, d=2 thorough) of mutual-close requests over channel states reached by real commitment updates, both entry points, with a u128 reference predicate and a closing transaction built from first principles (cross-checked against LDK's builder on every case)",
-   "Bases: 10 channel states reached through validate/revoke/sign/revocation requests (both sides at commitment 0; at 1 with equal views; the two views differing by eps-1, eps, eps+1, -(eps+1), 2eps+1; an HTLC pending in the holder's, the counterparty's or both current commitments) x funder / fundee x commitment type x upfront shutdown script (none, wallet, allowlisted foreign) x entry point (semantic, raw transaction). Deviations: non-fee-payer's value at +-1, +-eps, +-(eps+1) and 0; fee at min-2, min, max, max+2, 0 and 900000 sat; holder script kind (wallet at the right / wrong / no path, allowlisted, foreign, upfront, absent); counterparty script absent; allowlist cleared between setup and signing; for the raw entry point output order, paths attached to the other output, version, locktime, sequence, prevout, extra output. Accepted => the reference holds (for the raw entry point: for some assignment of outputs to parties), the signature verifies against the independently built closing transaction spending the funding outpoint under the funding key, and channel_closed is set live and in a signer restored from a copy of the store.",
+   "Bases: 10 channel states reached through validate/revoke/sign/revocation requests (both sides at commitment 0; at 1 with equal views; the two views differing by eps-1, eps, eps+1, -(eps+1), 2eps+1; an HTLC pending in the holder's, the counterparty's or both current commitments) x funder / fundee x commitment type x upfront shutdown script (none, wallet, allowlisted foreign) x entry point (semantic, raw transaction). Deviations: non-fee-payer's value at +-1, +-eps, +-(eps+1) and 0; fee at min-2, min, max, max+2, 0 and 900000 sat; holder script kind (wallet at the right / wrong / no path, allowlisted, foreign, upfront, absent); counterparty script absent, or a wallet (with / without path) or allowlisted script; allowlist cleared between setup and signing; for the raw entry point output order, paths attached to the other output, version, locktime, sequence, prevout, extra output. Accepted => the reference holds (for the raw entry point: for some assignment of outputs to parties), the signature verifies against the independently built closing transaction spending the funding outpoint under the funding key, and channel_closed is set live and in a signer restored from a copy of the store.",
    "epsilon 1000 sat, fee range 500..20000 sat/kw in the policy used; fee-rate rounding in the accepting direction.",
    "4.3"),
  "C08": (True, "c08", "model_checking",
